@@ -224,6 +224,7 @@ Print Assumptions C18_pinned_failed_construction_refuted.
    One concrete history through all eight classes: depth 3, equal priorities,
    a read-only parameter, accepted and rejected attempts. *)
 Local Open Scope string_scope.
+Ltac in_list := vm_compute; repeat (first [left; reflexivity | right]).
 Definition len_units : list string := ["m"; "km"; "mm"].
 
 Definition ex_ops : list op :=
@@ -284,7 +285,7 @@ Proof. exact (run_wf ex_ops init init_wf). Qed.
 Example ex_history_hyp :
   exists h c d v, In (Leaf h true c d v) (nodes (st_root ex_state)) /\ (h_id h < st_next ex_state)%nat.
 Proof.
-  exists (mkHdr 5 "s" 1), CStr, (VStr "fixed"), (VStr "fixed"). split; [vm_compute; tauto | vm_compute; repeat constructor].
+  exists (mkHdr 5 "s" 1), CStr, (VStr "fixed"), (VStr "fixed"). split; [in_list | vm_compute; repeat constructor].
 Qed.
 
 Example ex_extended_key_hyp :
@@ -294,12 +295,12 @@ Example ex_extended_key_hyp :
 Proof.
   split; [reflexivity|].
   exists (Leaf (mkHdr 6 "b" (1#2)) false CBool (VBool true) (VBool false)).
-  repeat split; [vm_compute; tauto | discriminate].
+  split; [in_list|]. split; [vm_compute; intro H; discriminate H|]. split; reflexivity.
 Qed.
 
 Example ex_duplicate_hyp :
   exists h ch, node_at (st_root ex_state) (psegs (Some "sub.deep")) = Some (Map h ch) /\ In "s" (map pkey ch).
-Proof. eexists. eexists. split; [vm_compute; reflexivity | vm_compute; tauto]. Qed.
+Proof. eexists. eexists. split; [vm_compute; reflexivity | in_list]. Qed.
 
 Example ex_roundtrip_hyp :
   exists root', step_root repaired 20 (st_root ex_state) (OModelSet "sub.q" (VQty 0 (FFin 50) "km")) = (root', ONone).
